@@ -618,7 +618,7 @@ func runC11(c *Ctx) {
 		}
 		r.Add("R6", "one-line-per-piece:"+c.FuncKey(fn), c.InstrPos(cs), c.FuncKey(fn), "exactly one line is sent for each piece", okRaw, why)
 	}
-	r.Floor("R6", "call sites of the splitter", n6, 4)
+	r.Floor("R6", "call sites of the splitter", n6, 2)
 }
 
 // singleVarargElem: the variadic slice holds exactly one value; return it.
